@@ -27,7 +27,10 @@ Observation  {"log":[..], "exit":[kind, code], "completed":int|null, "ensure":bo
 
 Handshake case {"kind":"h", "mode":"plain"|"linked"|"dropped", worker cfg fields..., "send_ack":bool,
               "accept_cb","callback","error_cb":bool, "ins":[ev..]} where a job event carries one more field:
-              ["msg", ty, job, i, t, beh, syn(delay polls), mem, term, cancel(0|1)]
+              ["msg", ty, job, i, t, beh, syn(delay polls), mem, term, cancel(0|1), cb_raises(0|1), late(0|1|2)]
+   cb_raises: the job's accept callback raises; late: ApplyResult._cancel() is called on the job's handle WHILE
+   the real _ack runs -- 1: from the timeout hook (stands for another thread cancelling while _ack is busy),
+   2: by the accept callback itself (never lands when the handle has no accept callback)
    The REAL workloop and the REAL ResultHandler/ApplyResult are connected: every message the worker
    puts is handed to on_state_change at once; one ApplyResult per job id; "cancel" = _cancel() is called
    before the job's ACK is processed.  mode plain: the worker's SYN queue is what the real
@@ -38,7 +41,8 @@ Observation  worker observation + "parents": {job: parent observation}, "synq_no
 
 Parent case  {"kind":"p", "job_known":bool, "send_ack":bool, "accept_cb":bool, "callback":bool,
               "error_cb":bool, "evs":[pev..]}
-   pev = ["ack", i|null, t, pid, fd|null, cb_raises] | ["ready", i|null, ok, v] | ["cancel"]
+   pev = ["ack", i|null, t, pid, fd|null, cb_raises, late(0|1|2, optional)] | ["ready", i|null, ok, v] | ["cancel"]
+         late: _cancel() lands while _ack runs (1 = in the timeout hook, 2 = in the accept callback), as above
 Observation  {"log":[..], "accepted":bool, "pid":int|null, "time":int|null, "ready":bool,
               "in_cache":bool, "pids":[..]}
 """
@@ -444,6 +448,7 @@ class Handshake:
         self.handles = {}
         self.logs = {}
         self.cancels = {}
+        self.flags = {}
         self.rs = FakeRestart()
         self.rh = bp.ResultHandler(None, None, self.cache, None, None, None, self.rs, None, None, None)
         self.synq_none = None
@@ -475,23 +480,42 @@ class Handshake:
         before the message was sent); cancelled now if the script says so"""
         job = ev[2]
         cancel = bool(ev[9]) if len(ev) > 9 else False
+        raises = bool(ev[10]) if len(ev) > 10 else False
+        late = ev[11] if len(ev) > 11 else 0
         if job in self.handles:
             return
         log = self.logs.setdefault(job, [])
         c = self.case
+        box = {}
+
+        def accept_cb(pid, t):
+            log.append(['cb_accept', pid, t])
+            if late == 2:
+                box['ar']._cancel()          # the accept callback cancels its own job: too late to refuse it
+            if raises:
+                raise ValueError('scripted accept callback failure')
+
+        def on_timeout_set(r, soft, hard):
+            log.append(['timeout_set'])
+            if late == 1:
+                box['ar']._cancel()          # another thread cancels while _ack is busy
+
         ar = bp.ApplyResult(
             self.cache,
             (lambda v: log.append(['cb_result', canon_cbvalue(v)])) if c['callback'] else None,
-            (lambda pid, t: log.append(['cb_accept', pid, t])) if c['accept_cb'] else None,
+            accept_cb if c['accept_cb'] else None,
             error_callback=(lambda v: log.append(['cb_error', canon_cbvalue(v)])) if c['error_cb'] else None,
-            on_timeout_set=lambda r, soft, hard: log.append(['timeout_set']),
+            on_timeout_set=on_timeout_set,
             on_timeout_cancel=lambda r: log.append(['timeout_cancel']),
             send_ack=self.wrap_send_ack(log))
+        box['ar'] = ar
         del self.cache[ar._job]
         ar._job = job
         self.cache[job] = ar
         self.handles[job] = ar
         self.cancels[job] = cancel
+        self.flags[job] = dict(raises=raises, late=late,
+                               late_lands=late == 1 or (late == 2 and bool(c['accept_cb'])))
         if cancel:
             ar._cancel()
             log.append(['cancelled'])
@@ -521,7 +545,9 @@ class Handshake:
         out = {}
         for job, ar in self.handles.items():
             out[str(job)] = dict(
-                cancel=self.cancels[job], log=self.logs[job], accepted=bool(ar._accepted), pid=ar._worker_pid,
+                cancel=self.cancels[job], raises=self.flags[job]['raises'], late=self.flags[job]['late'],
+                late_lands=self.flags[job]['late_lands'], cancelled_now=bool(ar._cancelled),
+                log=self.logs[job], accepted=bool(ar._accepted), pid=ar._worker_pid,
                 time=ar._time_accepted, ready=ar.ready(), in_cache=job in self.cache,
                 pids=list(ar.worker_pids()))
         return out
@@ -558,6 +584,8 @@ def run_parent(case):
 
     def accept_cb(pid, t):
         log.append(['cb_accept', pid, t])
+        if flags['late'] == 2:
+            ar._cancel()                 # the accept callback cancels its own job
         if flags['raise']:
             raise ValueError('scripted accept callback failure')
 
@@ -572,12 +600,15 @@ def run_parent(case):
 
     def on_timeout_set(r, soft, hard):
         log.append(['timeout_set'])
+        if flags['late'] == 1:
+            ar._cancel()                 # another thread cancels while _ack is busy
 
     def on_timeout_cancel(r):
         log.append(['timeout_cancel'])
 
     flags = dict()
     flags['raise'] = False
+    flags['late'] = 0
     ar = bp.ApplyResult(cache, callback if case['callback'] else None,
                         accept_cb if case['accept_cb'] else None,
                         error_callback=error_cb if case['error_cb'] else None,
@@ -595,10 +626,12 @@ def run_parent(case):
             ar._cancel()
             log.append(['cancelled'])
         elif k == 'ack':
-            _, i, t, pid, fd, raises = ev
+            _, i, t, pid, fd, raises = ev[:6]
             flags['raise'] = bool(raises)
+            flags['late'] = ev[6] if len(ev) > 6 else 0
             rs.R = 7
             rh.on_state_change((bp.ACK, (JOB, i, t, pid, fd)))
+            flags['late'] = 0
             log.append(['acked', rs.R])
         elif k == 'ready':
             _, i, ok, v = ev
@@ -606,6 +639,7 @@ def run_parent(case):
             log.append(['readied'])
     return dict(log=log, accepted=bool(ar._accepted), pid=ar._worker_pid, time=ar._time_accepted,
                 ready=ar.ready(), in_cache=JOB in cache, pids=list(ar.worker_pids()),
+                cancelled_now=bool(ar._cancelled),
                 success=getattr(ar, '_success', None),
                 value=canon_value(getattr(ar, '_value', None)) if ar.ready() else None)
 
